@@ -7,7 +7,8 @@ use duckscript::types::instruction::InstructionType;
 use serde_json::{json, Value};
 
 const NAME_CHARS: [&str; 8] = ["a", "b", "Z", "_", "1", "é", ":", "-"];
-const ARG_CHARS: [&str; 16] = ["a", "b", " ", "#", "\"", "\\", "\n", "\r", "\t", "=", "$", "{", "}", "%", "é", ":"];
+// includes characters that look like white space but are not (U+FEFF, U+200B) and one that is (U+00A0)
+const ARG_CHARS: [&str; 19] = ["a", "b", " ", "#", "\"", "\\", "\n", "\r", "\t", "=", "$", "{", "}", "%", "é", ":", "\u{feff}", "\u{200b}", "\u{a0}"];
 
 fn gen_name(r: &mut Rng, first_ok: bool) -> String {
     loop {
